@@ -1,12 +1,12 @@
 SPECIFICATION SeamSpec
 CONSTANTS
   Sess = {"s1"}
-  Reqs = {"r1"}
-  Gets = {"g1","g2","g3"}
-  Cfgs <- CfgStorePrime
-  MaxEmit = 2
+  Reqs = {}
+  Gets = {"g1","g2"}
+  Cfgs <- CfgStoreNoPrime
+  MaxEmit = 0
   MaxSreq = 0
-  MaxSa = 0
+  MaxSa = 2
   Gates = TRUE
 VIEW MCView
 CHECK_DEADLOCK FALSE
